@@ -77,7 +77,11 @@ Definition draw_on (arr : intervals) (w : Z) : res Z :=
   do c <- py_get cum (draw_y_idx0 w idxs);
   let y := draw_y w idxs c in
   do lo <- py_get (map fst arr) (draw_ontime_idx0 y idxs);
-  Ok (draw_ontime y idxs lo).
+  let o := draw_ontime y idxs lo in
+  (* kept strictly below the upper edge of its interval (np.minimum with np.nextafter, fix de40f4d) *)
+  do up <- py_get (map snd arr) (draw_clip_idx0 o idxs);
+  do lo' <- py_get (map fst arr) (draw_clip_idx1 o idxs);
+  Ok (draw_clip o idxs up lo').
 
 Definition draw_total (arr : intervals) : Z :=
   last (0 :: cumsum (evens (diff (flat2 arr)))) 0.
